@@ -489,15 +489,11 @@ theorem blocks_ok_of_cover (lens : List Nat) (extra : Nat)
   BV.StreamBlocks.blocksOK_of_cover lens extra h
 
 /-
-WHAT IS STILL NOT ONE THEOREM.  `BlocksOK` is derived per invocation (as C01's
-`requests_tile_input` is): the stream model records the requests of ONE `compress_stream` call
-(`Io.reqs`) and has no run-level object (a list of calls with the list of meta-blocks they closed),
-so "the meta-block lengths of the whole never-flushed stream" — the `lens` of
-`stream_total_le_bound_modelled` — are not a term of that model.  Missing in
-`BV/Model/Stream.lean` for a single end-to-end statement: (a) a `run : List Call → St → …`
-with the concatenated `reqs` and, per request, whether it closed the meta-block (`emit`, known
-from the oracle) — i.e. the boundaries `lf` of consecutive closed meta-blocks; (b) the link
-between its oracle answer `Ans.bits` and `writeMetaBlockInternal` (w-metablock's writers).
+RUN LEVEL: see `BV/Props/C08Run.lean`.  The stream model now has a run-level object
+(`BV/Model/StreamRun.lean`: `run` over a list of calls with the concatenated requests and closed flags);
+`BlocksOK` is derived from it for whole histories (`nonfinal_requests_cover_blocks_run`), the one-shot
+clause is stated over it (`oneshot_run_contract`).  The SUM over a run (`stream_total_le_bound_run`) is
+not yet one theorem — the closing comment of C08Run.lean says exactly what is missing.
 The two models of the head (`BV.Header.streamStart`, `BV.Stream.encMagic/encPrelude`) are tied
 to the same code by their correspondence runs, not to each other by a theorem.
 -/
